@@ -334,8 +334,13 @@ def gen_op(rng, cfg, n_ents, malformed, ents=()):
     return op
 
 
+ALLOWED = None      # optional restriction of the op alphabet (set of op kinds)
+
+
 def applicable(op, ents):
     k = op[0]
+    if ALLOWED is not None and k not in ALLOWED:
+        return False
     if k == "set" and op[3] == "path":
         return not op[4] or bool(ents[op[1]][op[2]]._oid)
     if k == "split":
@@ -449,3 +454,180 @@ def run_real(cfg, ops=None, rng=None, nops=0, malformed=False):
 
 def model_request(cfg, ops, tapes):
     return [wire_cfg(cfg), [[wire_op(o), t] for o, t in zip(ops, tapes)]]
+
+
+# ------------------------------------------------------------------ one case end to end
+CLAIMED = ("i-oid", "i-path", "ii-oid", "ii-path", "iii", "iv-missing")     # C11_idx_partial
+REFUTED = ("iv-extra", "iv-forgotten")                                       # changeset_exact_refuted
+
+
+def eval_case(model, cfg, ops=None, rng=None, nops=0, malformed=False):
+    """-> dict(ops, mismatch, claimed violations, refuted-clause hits, error kind, stats)"""
+    ops, results, tapes, viol = run_real(cfg, ops=ops, rng=rng, nops=nops, malformed=malformed)
+    mo = model.call(model_request(cfg, ops, tapes)) if ops else []
+    out = dict(ops=ops, mismatch=None, claimed=[], refuted=[], err=None, steps=len(ops))
+    if mo != results:
+        k = 0
+        while k < min(len(mo), len(results)) and mo[k] == results[k]:
+            k += 1
+        out["mismatch"] = dict(step=k, model=mo[k] if k < len(mo) else None, impl=results[k] if k < len(results) else None)
+    if results and results[-1][0] == 1:
+        out["err"] = results[-1][1]
+    forgot = False
+    for i, o in enumerate(ops):
+        forgot = forgot or o[0] == "forget"
+        for st, vs in viol:
+            if st != i:
+                continue
+            for v in vs:
+                tag = v.split(":")[0]
+                if tag in REFUTED or (forgot and tag in ("i-oid", "i-path")):
+                    out["refuted"].append((i, v))
+                else:
+                    out["claimed"].append((i, v))
+    return out
+
+
+def _worker(args):
+    seed_label, n, quick = args
+    import random
+    rng = random.Random(seed_label)
+    model = fw.ModelProc("state")
+    dist = fw.Distinct()
+    st = dict(sequences=0, steps=0, malformed=0, op_kinds={}, errors={}, refuted_hits={}, lengths={}, flavours={})
+    bad = []
+    samples = []
+    for i in range(n):
+        cfg = gen_cfg(rng)
+        malformed = rng.random() < 0.15
+        r = eval_case(model, cfg, rng=rng, nops=rng.randint(1, 15), malformed=malformed)
+        st["sequences"] += 1
+        st["steps"] += r["steps"]
+        st["malformed"] += int(malformed)
+        fl = "%d%d" % (cfg["oip"][0], cfg["oip"][1])
+        st["flavours"][fl] = st["flavours"].get(fl, 0) + 1
+        st["lengths"][r["steps"]] = st["lengths"].get(r["steps"], 0) + 1
+        for o in r["ops"]:
+            k = o[0] if o[0] != "set" else "set." + o[3]
+            st["op_kinds"][k] = st["op_kinds"].get(k, 0) + 1
+        ek = {None: "none", 0: "RecursionError", 1: "AssertionError", 2: "KeyError"}[r["err"]]
+        st["errors"][ek] = st["errors"].get(ek, 0) + 1
+        for _, v in r["refuted"]:
+            t = v.split(":")[0]
+            st["refuted_hits"][t] = st["refuted_hits"].get(t, 0) + 1
+        dist.add((cfg["oip"], cfg["cs"], r["ops"]), nontrivial=r["steps"] >= 2)
+        case = dict(kind="sequence", cfg=cfg, ops=r["ops"])
+        if r["mismatch"] or r["claimed"]:
+            bad.append(dict(case=case, mismatch=r["mismatch"], claimed=r["claimed"]))
+        if i < 2:
+            samples.append(dict(cfg=cfg, ops=r["ops"], error=ek))
+    model.close()
+    return dict(stats=st, bad=bad[:10], nbad=len(bad), total=dist.total, seen=list(dist.seen), samples=samples)
+
+
+def _merge(a, b):
+    for k, v in b.items():
+        if isinstance(v, dict):
+            _merge(a.setdefault(k, {}), v)
+        else:
+            a[k] = a.get(k, 0) + v
+
+
+def shrink_case(model, case, pred):
+    def fails(ops):
+        try:
+            return pred(eval_case(model, case["cfg"], ops=ops))
+        except Exception:
+            return False
+    return dict(case, ops=fw.shrink_list(case["ops"], fails))
+
+
+def run(ctx):
+    instrument()
+    g = ctx.coq_gate("PropC11")
+    cov = ctx.coverage
+    stats = {}
+    total, seen, samples = 0, set(), []
+    if g is not None:
+        model = fw.ModelProc("state")
+        # ---- corpus first (witnesses of the refuted statements = known findings; regressions)
+        cdir = os.path.join(fw.VERIF, "corpus", "C11")
+        ncorpus = 0
+        for fn in sorted(os.listdir(cdir)) if os.path.isdir(cdir) else []:
+            if not fn.endswith(".json"):
+                continue
+            doc = json.load(open(os.path.join(cdir, fn)))
+            case = doc["case"]
+            r = eval_case(model, case["cfg"], ops=case["ops"])
+            ncorpus += 1
+            if r["mismatch"]:
+                ctx.violation("corpus case %s: model and implementation differ at step %d" % (fn, r["mismatch"]["step"]),
+                              case, no_input=True, theorem="correspondence StateModel.run vs cloudsync.sync.state")
+            exp = doc.get("expect")
+            got = None
+            if r["err"] == 0:
+                got = "RecursionError"
+            elif r["refuted"]:
+                got = r["refuted"][-1][1].split(":")[0]
+            elif r["claimed"]:
+                got = r["claimed"][-1][1].split(":")[0]
+            if got is not None:
+                # the real code violates the property on this exact case: known finding or VIOLATION
+                ctx.violation("corpus case %s: %s on the real SyncState (%s)" % (fn, got, doc.get("what", "")), case)
+            if exp is not None and exp != got:
+                ctx.notes.append("corpus case %s expected %s, observed %s" % (fn, exp, got))
+                if exp and got is None:
+                    # a listed defect no longer reproduces: say so (fixed upstream?) - not a violation
+                    print("# corpus case %s no longer fails (expected %s)" % (fn, exp))
+        stats["corpus_cases"] = ncorpus
+        # ---- random streams, in parallel workers (each with its own model process and PRNG)
+        import multiprocessing as mp
+        nseq = 20000 if ctx.quick else 320000
+        nw = 16
+        per = nseq // nw
+        jobs = [("%s/C11/stream/%d" % (ctx.seed, w), per, ctx.quick) for w in range(nw)]
+        with mp.get_context("fork").Pool(nw) as pool:
+            outs = pool.map(_worker, jobs)
+        nbad = 0
+        for o in outs:
+            _merge(stats, o["stats"])
+            total += o["total"]
+            seen.update(o["seen"])
+            samples += o["samples"][:1]
+            nbad += o["nbad"]
+            for b in o["bad"][:2]:
+                case = b["case"]
+                if b["claimed"]:
+                    tags = sorted({v.split(":")[0] for _, v in b["claimed"]})
+                    small = shrink_case(model, case, lambda r, tags=tags: any(v.split(":")[0] in tags for _, v in r["claimed"]))
+                    ctx.violation("index clause(s) %s fail on the real SyncState: %s" % (tags, b["claimed"][0][1]), small)
+                if b["mismatch"]:
+                    small = shrink_case(model, case, lambda r: r["mismatch"] is not None)
+                    ctx.violation("model and implementation differ at step %d: model %s impl %s"
+                                  % (b["mismatch"]["step"], str(b["mismatch"]["model"])[:150], str(b["mismatch"]["impl"])[:150]),
+                                  small, no_input=not b["claimed"], theorem="correspondence StateModel.run vs cloudsync.sync.state")
+        stats["cases_with_difference_or_violation"] = nbad
+        model.close()
+    cov["evaluations"] = total
+    cov["distinct_nontrivial"] = len(seen)
+    cov["rule"] = ("a case = provider flavours (oid_is_path x case sensitivity per side) + operation sequence of length 1-15 over "
+                   "raw events (3 ids / 8 paths nested up to 3 deep, hashes, exists in {True, False, None}, prior_oid, file/dir/"
+                   "notknown), direct assignments of path/oid/changed/hash/sync_hash/sync_path/exists/otype/force_sync/ignored/"
+                   "priority, split, finished, discard, mark_changed, move-a-side, update_entry, forget_oid (malformed stream "
+                   "only); non-trivial = at least 2 executed operations; distinct = distinct (flavour, sequence)")
+    cov["exhaustive"] = False
+    cov["samples"] = samples[:6]
+    cov["streams"] = stats
+    cov["traces_validated_against_impl"] = stats.get("steps", 0)
+    tb = ["Coq 8.16.1 kernel (coqc); vm_compute used by the _refuted witnesses; no native_compute",
+          "axioms per theorem as printed by Print Assumptions: " + (", ".join(cov.get("axioms_used", [])) or "none (closed under the global context)"),
+          "extraction: ExtrOcamlBasic only; OCaml 4.13.1; coq/ocaml/driver.ml",
+          "PathModel (C13) for normalize_path_separators / is_subpath / join / dirname of the providers",
+          "correspondence harness harness/checks/c11.py: generators, canonicalisation, virtual clock patched into "
+          "cloudsync.sync.state.time, SyncEntry creation serials and serial-derived __hash__, recording (not altering) of the "
+          "iteration order of set([old_oid, new_oid]) and get_all(); provider.info_path replaced by a table (oracle); "
+          "envfix.debug_sig replacement",
+          "harness/state_oracle.index_violations: Python statement of Idx evaluated on the real state",
+          "modelled, not verified: CPython dict/set semantics; not modelled: Exists.CORRUPT/_saved_exists, size, mtime, "
+          "temp_file, _last_gotten, storage, prioritize callbacks other than the default, state after an exception"]
+    return ctx.finish(tb)
